@@ -137,6 +137,9 @@ def run_program(src, pair, prog, lazy, chunk_K=None, twin=False):
         return None, [("err", "read: " + o[1])]
     pool = list(o[1])
     outs = []
+    if first["op"] == "read_chunks" and len(pool) != 2:
+        # the chunk size was found with eagerly read tables; a reader that cuts the file differently in this mode is an observation
+        return None, [("err", "read: read_chunks gave %d chunks where the eager reader gives 2" % len(pool))]
     for step_, op in enumerate(prog[1:], start=1):
         name = op["op"]
         t = pool[op["t"] - 1]
